@@ -50,6 +50,11 @@ def vocabulary():
     add("idx-opassign", g.opasg(T("xx", L(0)), "append", L(7)), ["xx"])
     add("opassign-var", g.opasg(T("xx"), "append", I("yy")), ["xx"])
     add("opassign-self", g.opasg(T("xx"), "++", I("xx")), ["xx"])
+    add("idx-opassign-reads-self", g.opasg(T("xx", L(0)), "append", I("xx")), ["xx"])
+    add("idx-opassign-reads-slot", g.opasg(T("xx", L(0)), "++", g.idx(I("xx"), L(0))), ["xx"])
+    add("idx-opassign-rhs-throws", g.try_(g.opasg(T("xx", L(0)), "append", g.seq([g.throw(L(1)), L(2)])), "ee", L(0)), ["xx"])
+    add("opassign-rhs-throws", g.try_(g.opasg(T("xx"), "append", g.seq([g.throw(L(1)), L(2)])), "ee", L(0)), ["xx"])
+    add("idx-opassign-op-fails", g.try_(g.opasg(T("xx", L(0)), "+", L(1)), "ee", L(0)), ["xx"])
     add("pop-inner", g.pop(T("xx", L(0))), ["xx"])
     add("pop", g.pop(T("yy")), ["yy"])
     add("remove", g.remove(T("xx", L(0))), ["xx"])
@@ -143,7 +148,12 @@ def rand_history(rng, n):
             if op == ".+":
                 # prepend: the variable is the RIGHT operand of .+ in `x .+= y`?  no: x op= y is op(x, y)
                 op, rhs = "append", L(5)
-            stmts.append(g.opasg(T(x, *rand_path(rng, 2)) if rng.random() < 0.6 else T(x), op, rhs))
+            if op in ("append", "++") and rng.random() < 0.25:
+                rhs = rng.choice([I(x), g.idx(I(x), rand_ix(rng)), g.lst([I(x)])])
+            st = g.opasg(T(x, *rand_path(rng, 2)) if rng.random() < 0.6 else T(x), op, rhs)
+            if rng.random() < 0.08:
+                st = g.try_(g.opasg(st["x"], op, g.seq([g.throw(L(1)), rhs])), "ce", L(0))
+            stmts.append(st)
         elif r < 0.56:
             stmts.append(g.pop(T(x, *rand_path(rng, 1)) if rng.random() < 0.5 else T(x)))
         elif r < 0.62:
